@@ -112,7 +112,7 @@ pub fn run_pattern(p: &Pattern, n: u64) -> RunRes {
     let marks = [n / 10, n];
     let mut i: u64 = 0;
     let abort_at = res.bound_peak.saturating_mul(64);
-    let mut fail = |res: &mut RunRes, o: &str, d: String| {
+    let fail = |res: &mut RunRes, o: &str, d: String| {
         if res.viol.is_none() {
             res.viol = Some((o.to_string(), d));
         }
